@@ -14,7 +14,7 @@
 (* Run:  TRACE=<trace.ndjson> NOTES=<notes.ndjson> tlc -workers 1          *)
 (*       -config Trace.cfg Trace.tla                                       *)
 (***************************************************************************)
-EXTENDS PacketAPI, StreamIO, Json, IOUtils
+EXTENDS PacketAPI, StreamIO, MQLib, Json, IOUtils
 
 TraceFile == IOEnv.TRACE
 NotesFile == IOEnv.NOTES
@@ -195,6 +195,11 @@ EvDiag(e) ==
           /\ NoteIf(e.malformed # e.wfErr, "C17", "String and WellFormed disagree", [malformed |-> e.malformed, wfErr |-> e.wfErr])
      ELSE TRUE
   /\ (Has(e, "obs") => NoteIf(ObsDiff(o, e.obs) # {}, "C11", "String/Dump changed what the accessors return", [keys |-> ObsDiff(o, e.obs)]))
+  \* as-built rendering of String (spec/MQLib.tla): a difference is a drift note, never a verdict
+  /\ IF Has(e, "first") /\ e.strN >= 0 /\ (t # 14 \/ "ReasonString" \in DOMAIN o)
+     THEN LET want == StringOf(t, o, e.first, e.strN) IN
+          NoteIf(e.string # want, "DRIFT", "String() differs from the as-built rendering", [type |-> t, got |-> e.string, want |-> want])
+     ELSE TRUE
   /\ diag' = (h :> [string |-> e.string, dump |-> e.dump]) @@ diag
   /\ Bystanders(e, h)
   /\ UNCHANGED <<pool, from, contig, enc, memo, prog>> /\ KeepStream
